@@ -146,6 +146,40 @@ def p_pairwise_distinct(ip, args, kw, ctx):
     return ip.conj(conj)
 
 
+def p_pick(ip, args, kw, ctx):
+    """Enum member by a table code -> name; symbolic code gives a SymEnum (no path fork)"""
+    from .sym import SymEnum, PyDict
+    from .interp import PyExc, Unsupported
+    from .sym import ExcVal
+    cls, table, code = args
+    t = table.d if isinstance(table, PyDict) else table
+    members = list(cls)
+    if not isz(code):
+        if code not in t:
+            raise PyExc(ExcVal("KeyError", (code,)))
+        return cls[t[code]]
+    codes = sorted(t.keys())
+    if not ctx.entails(z3.Or([code == c for c in codes])):
+        if not ctx.branch(simp(z3.Or([code == c for c in codes]))):
+            raise PyExc(ExcVal("KeyError", ("code",)))
+    idx = z3.IntVal(members.index(cls[t[codes[-1]]]))
+    for c in reversed(codes[:-1]):
+        idx = z3.If(code == c, z3.IntVal(members.index(cls[t[c]])), idx)
+    return SymEnum(cls, simp(idx), members)
+
+
+def p_all_of(ip, args, kw, ctx):
+    items = ip.iterate(args[0], ctx)
+    return ip.conj([ip.truth(x, ctx) for x in items])
+
+
+def p_implies(ip, args, kw, ctx):
+    a, b = ip.truth(args[0], ctx), ip.truth(args[1], ctx)
+    if isinstance(a, bool):
+        return b if a else True
+    return simp(z3.Implies(a, zb(b)))
+
+
 def _le(n):
     def prim(ip, args, kw, ctx):
         from .sym import int_bytes
@@ -232,5 +266,5 @@ def install(ip):
     ip.spec_prims.update({
         "crc16": p_crc16, "is_hex": p_is_hex, "amps_of": p_amps_of, "tenths": p_tenths, "utf8": p_utf8,
         "valid_hhmm": p_valid_hhmm, "hh_of": p_hh_of, "mm_of": p_mm_of,
-        "le16": _le(2), "le32": _le(4), "chr_digit": p_chr_digit, "today_epoch": p_today_epoch, "local_hhmm_of": p_local_hhmm_of, "timestamp_of": p_timestamp_of, "decode_padded_utf8": p_decode_padded_utf8, "day_bit": p_day_bit, "is_member": p_is_member, "pairwise_distinct": p_pairwise_distinct,
+        "le16": _le(2), "le32": _le(4), "pick": p_pick, "all_of": p_all_of, "implies": p_implies, "chr_digit": p_chr_digit, "today_epoch": p_today_epoch, "local_hhmm_of": p_local_hhmm_of, "timestamp_of": p_timestamp_of, "decode_padded_utf8": p_decode_padded_utf8, "day_bit": p_day_bit, "is_member": p_is_member, "pairwise_distinct": p_pairwise_distinct,
     })
